@@ -652,4 +652,159 @@ theorem reachable_keeps_value (profiles : List String) (idx : Nat) (m : ApiMatri
     show some (if codes.getD i 0 > 0 then _ else _) = _
     rw [if_neg hpos]
 
+/-! ## `SimpleTransportCost` -/
+
+/-- two `n × n` collections are accepted and every in-range pair is answered with the supplied entries -/
+theorem simple_returns_entry (dur dist : List Int) (n : Nat) (h1 : dur.length = n * n) (h2 : dist.length = n * n) :
+    ∃ s, Simple.new dur dist = some s ∧ s.size = n ∧
+      ∀ frm dst, frm < n → dst < n →
+        dur[frm * n + dst]? = some (s.duration frm dst) ∧ dist[frm * n + dst]? = some (s.distance frm dst) := by
+  refine ⟨⟨dur, dist, n⟩, ?_, rfl, ?_⟩
+  · unfold Simple.new
+    simp [h1, h2, sqrtRound_sq]
+  · intro frm dst hf hd
+    obtain ⟨a, ha⟩ := entry_exists dur n frm dst h1 hf hd
+    obtain ⟨b, hb⟩ := entry_exists dist n frm dst h2 hf hd
+    unfold Simple.duration Simple.distance
+    simp only [List.getD_eq_getElem?_getD, ha, hb, Option.getD_some]
+    exact ⟨trivial, trivial⟩
+
+/-- square collections of different dimension are rejected -/
+theorem simple_rejects_size_mismatch (dur dist : List Int) (n m : Nat) (h1 : dur.length = n * n)
+    (h2 : dist.length = m * m) (hne : n ≠ m) : Simple.new dur dist = none := by
+  unfold Simple.new
+  simp only [h1, h2, sqrtRound_sq]
+  have : (m != n) = true := by simpa using (Ne.symm hne)
+  simp [this]
+
+/-! ## coordinate-based approximation: symmetric with a zero diagonal -/
+
+/-- Euclidean (scientific formats), squared: symmetric … -/
+theorem euclid_symm (a b : Int × Int) : sqDist a b = sqDist b a := by
+  unfold sqDist
+  congr 1
+  ring
+
+/-- … hence so is every function of it, in particular the rounded distance `sqrtRound ∘ sqDist` of `create_transport` -/
+theorem euclid_rounded_symm (a b : Int × Int) : sqrtRound (sqDist a b) = sqrtRound (sqDist b a) := by
+  rw [euclid_symm]
+
+/-- zero diagonal -/
+theorem euclid_zero_diag (a : Int × Int) : sqDist a a = 0 ∧ sqrtRound (sqDist a a) = 0 := by
+  have h : sqDist a a = 0 := by
+    unfold sqDist
+    simp
+  exact ⟨h, by rw [h]; exact sqrtRound_sq 0⟩
+
+section Haversine
+/-! The haversine formula of `approx_transportation.rs` over an abstract commutative ring `F` with an odd `sin`, an
+even `cos`, odd "halving" and degree→radian maps (`x / 2.`, `π * x / 180.`: odd and zero at zero in `f64` too), and
+arbitrary binary functions for the quotient-and-root of the radius and for `2 · atan2(√a, √(1 − a))` (only
+`arc 0 = 0` is used). `f64` evaluation is outside the model: the product `s·s·cos₁·cos₂` is not reassociated
+symmetrically by the code, so the unrounded value may differ in the last bit (S12b); the real code is checked on
+its rounded output. -/
+variable {F : Type} [CommRing F] (sin cos half rad arc : F → F) (quot : F → F → F) (A B : F)
+
+/-- `a` of `get_haversine_distance` -/
+def havA (lat1 lng1 lat2 lng2 : F) : F :=
+  sin (half (rad (lat1 - lat2))) * sin (half (rad (lat1 - lat2))) +
+    sin (half (rad (lng1 - lng2))) * sin (half (rad (lng1 - lng2))) * cos (rad lat1) * cos (rad lat2)
+
+/-- `wgs84_earth_radius` (applied by the code to the latitude *difference*) -/
+def havRadius (x : F) : F :=
+  quot (A * A * cos x * (A * A * cos x) + B * B * sin x * (B * B * sin x))
+       (A * cos x * (A * cos x) + B * sin x * (B * sin x))
+
+/-- `get_haversine_distance` -/
+def haversine (lat1 lng1 lat2 lng2 : F) : F :=
+  havRadius sin cos quot A B (rad (lat1 - lat2)) * arc (havA sin cos half rad lat1 lng1 lat2 lng2)
+
+variable (sin_neg : ∀ x, sin (-x) = -sin x) (cos_neg : ∀ x, cos (-x) = cos x)
+  (half_neg : ∀ x, half (-x) = -half x) (rad_neg : ∀ x, rad (-x) = -rad x)
+include sin_neg cos_neg half_neg rad_neg
+
+/-- **haversine_symm**: `d(p₁, p₂) = d(p₂, p₁)` -/
+theorem haversine_symm (lat1 lng1 lat2 lng2 : F) :
+    haversine sin cos half rad arc quot A B lat1 lng1 lat2 lng2 =
+    haversine sin cos half rad arc quot A B lat2 lng2 lat1 lng1 := by
+  have e1 : lat2 - lat1 = -(lat1 - lat2) := by ring
+  have e2 : lng2 - lng1 = -(lng1 - lng2) := by ring
+  unfold haversine havRadius havA
+  rw [e1, e2]
+  simp only [rad_neg, half_neg, sin_neg, cos_neg]
+  congr 1
+  · congr 1 <;> ring
+  · congr 1; ring
+
+omit sin_neg cos_neg half_neg rad_neg in
+/-- **haversine_zero_diag**: `d(p, p) = 0` (given `sin 0 = 0`, `x/2 = 0` and `rad x = 0` at `x = 0`, `arc 0 = 0`) -/
+theorem haversine_zero_diag (lat lng : F) (sin_zero : sin 0 = 0) (half_zero : half 0 = 0) (rad_zero : rad 0 = 0)
+    (arc_zero : arc 0 = 0) : haversine sin cos half rad arc quot A B lat lng lat lng = 0 := by
+  unfold haversine havA
+  simp only [sub_self, rad_zero, half_zero, sin_zero, mul_zero, zero_mul, add_zero, arc_zero]
+end Haversine
+
+/-! ## non-vacuity: concrete inputs that meet the hypotheses -/
+
+section examples
+
+def exA : MatrixData := ⟨0, none, [0, 3, 5, 0], [0, 30, 50, 0]⟩
+def exB : MatrixData := ⟨1, none, [0, 4, 6, 0], [0, 40, 60, 0]⟩
+
+/-- two profiles, asymmetric 2 × 2 matrices: accepted; `agnostic_returns_entry` applies to both matrices -/
+example : build [exA, exB] = .ok (.agnostic 2 [exA, exB]) ∧ (∀ m ∈ [exA, exB], m.timestamp = none) ∧
+    (∀ m ∈ [exA, exB], m.durations.length = 2 * 2) := by
+  have h4 : sqrtRound 4 = 2 := sqrtRound_sq 2
+  have hsort : sortByIndex [exA, exB] = [exA, exB] := by
+    unfold sortByIndex; apply List.mergeSort_of_pairwise; simp [exA, exB]
+  simp only [exA, exB] at hsort
+  refine ⟨?_, by simp [exA, exB], by simp [exA, exB]⟩
+  simp [build, newAgnostic, hsort, indicesAreRange, h4, exA, exB]
+
+/-- and the answer for a vehicle of profile 1 with scale 3/2 from 1 to 0 is 6 · 3/2 = 9 and 60 -/
+example : (Provider.agnostic 2 [exA, exB]).duration none ⟨1, 3 / 2⟩ 1 0 7 = some 9 ∧
+    (Provider.agnostic 2 [exA, exB]).distance none ⟨1, 3 / 2⟩ 1 0 7 = some 60 := by
+  constructor
+  · simp [Provider.duration, durAt, flatIdx, orFallback, exB]; norm_num
+  · simp [Provider.distance, distAt, flatIdx, orFallback, exB]
+
+def exL : MatrixData := ⟨0, some 0, [10], [7]⟩
+def exR : MatrixData := ⟨0, some 8, [18], [9]⟩
+
+/-- a timed profile with matrices at 0 and 8 (input order reversed): the context of the time-aware theorems holds,
+    `(exL, exR)` is a bracket and the query time 2 lies strictly inside it -/
+example : AwareCtx [exR, exL] (.aware 1 [exR, exL]) 1 ⟨0, 3 / 2⟩ ∧ Bracket (supplied [exR, exL] 0) exL exR ∧
+    exL.key < keyOfRat ((2 : Int) : Rat) ∧ keyOfRat ((2 : Int) : Rat) < exR.key := by
+  have h1 : sqrtRound 1 = 1 := sqrtRound_sq 1
+  refine ⟨⟨?_, ⟨exR, by simp, rfl⟩, by simp [exL, exR], ?_⟩, ⟨by simp [supplied, exL, exR], by simp [supplied, exL, exR], ?_⟩, ?_, ?_⟩
+  · simp [build, newAware, groupOf, h1, exL, exR]
+  · simp [DistinctKeys, supplied, exL, exR, MatrixData.key, keyOfInt]
+  · intro x hx
+    simp [supplied, exL, exR] at hx
+    rcases hx with h | h <;> subst h <;> simp [MatrixData.key, keyOfInt, exL, exR]
+  · rw [keyOfRat_intCast]; simp [MatrixData.key, keyOfInt, exL]
+  · rw [keyOfRat_intCast]; simp [MatrixData.key, keyOfInt, exR]
+
+/-- `builder_rejects_inconsistent_partial`: the same profile twice in an untimed set is flagged by the specification
+    and meets both side conditions -/
+example : inconsistent [⟨0, none, [1], [1]⟩, ⟨0, none, [2], [2]⟩] = true ∧
+    (∀ m ∈ ([⟨0, none, [1], [1]⟩, ⟨0, none, [2], [2]⟩] : List MatrixData),
+      ∃ a b, m.durations.length = a * a ∧ m.distances.length = b * b) := by
+  have hs : Nat.sqrt 1 = 1 := Nat.sqrt_eq 1
+  refine ⟨by simp [inconsistent, supplied, hs], ?_⟩
+  intro m hm
+  simp at hm
+  rcases hm with h | h <;> subst h <;> exact ⟨1, 1, rfl, rfl⟩
+
+/-- `reader_maps_by_name`: fleet `[car, truck]`, matrices named `[car, truck]` with an unreachable entry -/
+example :
+    let car : ApiMatrix := ⟨some "car", none, [0, 3, 5, 0], [0, 30, 50, 0], some [0, 1, 0, 0]⟩
+    let truck : ApiMatrix := ⟨some "truck", none, [0, 4, 6, 0], [0, 40, 60, 0], none⟩
+    namesKnown ["car", "truck"] [car, truck] = true ∧
+    namedFor ["car", "truck"] [car, truck] "truck" = [⟨1, none, [0, 4, 6, 0], [0, 40, 60, 0]⟩] ∧
+    namedFor ["car", "truck"] [car, truck] "car" = [⟨0, none, [0, -1, 5, 0], [0, -1, 50, 0]⟩] := by
+  refine ⟨by decide, by decide, by decide⟩
+
+end examples
+
 end C16
